@@ -45,7 +45,7 @@ def _worker(args):
         res = {'inconclusive': ['time limit %ds exceeded' % limit]}
     except symex.Inconclusive as e:
         res = {'inconclusive': ['%s: %s' % (type(e).__name__, e)]}
-    except Exception as e:  # harness error: never a verdict
+    except (Exception, symex.Abort) as e:  # harness error: never a verdict
         res = {'inconclusive': ['harness error %s: %s\n%s' % (type(e).__name__, e, traceback.format_exc()[-1500:])]}
     finally:
         signal.alarm(0)
